@@ -10,9 +10,15 @@ package server
 
 //@ func NewAggregate
 //@   ensures [nonnil] implies(isnil(result1), result0 != nil)
+// g_pendingReaders (C06): ghost count of the session's file readers that have
+// not yet registered their lines channel (they register only after passing the
+// concurrency limiter). The aggregator may conclude "no more files" only when
+// there is none. Nothing in the code keeps such a count: the obligation fails
+// and is a recorded known finding (see /verif/known_findings.json).
 //@ func (*Aggregate).nextLine
 //@   assigns a.linesCh, *a.linesCh, *a.NextLinesCh
 //@   ensures [line] implies(result1, result0 != nil && result0.Content != nil)
+//@   ensures [done-only-when-every-reader-registered] implies(result2, g_pendingReaders == 0)
 //@ func (*Aggregate).fieldFromLine
 //@   requires [line] line != nil && line.Content != nil
 //@   requires [fieldsCh] fieldsCh != nil
